@@ -12,6 +12,7 @@ reads declared as externals by the generator.  Expressions: naturals with `+ - *
 `and/or/not`, `len(X)`, truthiness of lists, `k in D` / `k not in D`, `x is None` / `is not None`, tuples.
 """
 import ast
+import re
 
 from extract_base import NotTranslatable, find_class, find_def, parse
 
@@ -1053,6 +1054,257 @@ def gen_c12(repo):
     return 'pysparkling/sql/expressions/operators.py (And.eval, Or.eval, Invert.eval, IsNull.eval, IsNotNull.eval)', out
 
 
+# ---- C01: the actions of RDD as compositions over the list of partitions ---------------------------------
+
+class TrF:
+    """functional expressions: lambdas, functools.reduce, sums, comprehensions over partitions, method chains on `self`"""
+
+    def __init__(self, module_funcs):
+        self.module_funcs = module_funcs      # name -> lean term for module-level helpers (unit_map, unit_collect)
+        self.cnt = 0
+
+    def lam(self, e, env, drop_first=True):
+        """`lambda tc, i: BODY` -> `fun i => BODY` (the task context is dropped)"""
+        if isinstance(e, ast.Name) and e.id in self.module_funcs:
+            return self.module_funcs[e.id]
+        if isinstance(e, ast.Name) and e.id in env:
+            return env[e.id]
+        if not isinstance(e, ast.Lambda):
+            raise NotTranslatable('function ' + ast.unparse(e)[:60])
+        params = [a.arg for a in e.args.args]
+        if drop_first:
+            params = params[1:]
+        env2 = dict(env)
+        for p_ in params:
+            env2[p_] = p_
+        return '(fun %s => %s)' % (' '.join(params), self.expr(e.body, env2))
+
+    def expr(self, e, env):
+        src = ast.unparse(e)
+        if isinstance(e, ast.Name):
+            if e.id in env:
+                return env[e.id]
+            raise NotTranslatable('free name ' + e.id)
+        if isinstance(e, ast.Call):
+            f = ast.unparse(e.func)
+            if f == 'copy.deepcopy' and len(e.args) == 1:
+                return '(deepcopy %s)' % self.expr(e.args[0], env)
+            if f == 'functools.reduce' and len(e.args) == 3:
+                return '(List.foldl %s %s %s)' % (self.lam(e.args[0], env, False), self.expr(e.args[2], env), self.expr(e.args[1], env))
+            if f == 'functools.reduce' and len(e.args) == 2:
+                return '(reduce1 %s %s)' % (self.lam(e.args[0], env, False), self.expr(e.args[1], env))
+            if f == 'sum' and len(e.args) == 1 and isinstance(e.args[0], ast.GeneratorExp) and ast.unparse(e.args[0].elt) == '1' \
+                    and len(e.args[0].generators) == 1 and not e.args[0].generators[0].ifs:
+                return '(%s).length' % self.expr(e.args[0].generators[0].iter, env)
+            if f == 'sum' and len(e.args) == 1:
+                return '(List.sum %s)' % self.expr(e.args[0], env)
+            if f == 'list' and len(e.args) == 1:
+                return self.expr(e.args[0], env)
+            if f == 'iter' and len(e.args) == 1:
+                return self.expr(e.args[0], env)
+            if f == 'dict' and len(e.args) == 1:
+                return '(Rdd.pyDict %s)' % self.expr(e.args[0], env)
+            if f == 'next' and len(e.args) == 1:
+                return '(List.head? %s)' % self.expr(e.args[0], env)
+            if f == 'itertools.chain.from_iterable' and len(e.args) == 1:
+                return '(List.flatten %s)' % self.expr(e.args[0], env)
+            if f == 'itertools.islice' and len(e.args) == 2:
+                return '(List.take %s %s)' % (self.expr(e.args[1], env), self.expr(e.args[0], env))
+            if f == 'self.context.runJob':
+                kw = {k.arg: k.value for k in e.keywords}
+                if len(e.args) != 2 or ast.unparse(e.args[0]) != 'self' or set(kw) - {'resultHandler', 'allowLocal'} or 'resultHandler' not in kw:
+                    raise NotTranslatable('runJob call shape: ' + src[:80])
+                # runJob(rdd, f, resultHandler=h) = h(f(tc, partition) for partition in partitions)   [C04: fault-free job]
+                tasks = '(List.map %s parts)' % self.lam(e.args[1], env)
+                h = kw['resultHandler']
+                if isinstance(h, ast.Name) and h.id == 'sum':
+                    return '(List.sum %s)' % tasks
+                return '(%s %s)' % (self.lam(h, env, False), tasks)
+            if f in env and f != 'self':      # a local helper applied to arguments
+                return '(%s %s)' % (env[f], ' '.join(self.expr(a, env) for a in e.args))
+            if isinstance(e.func, ast.Attribute):
+                recv, m = e.func.value, e.func.attr
+                if ast.unparse(recv) == 'self' and m in ('aggregate',):
+                    return '(%s %s parts)' % (m, ' '.join(self.lam(a, env, False) if isinstance(a, (ast.Lambda,)) else self.expr(a, env) for a in e.args))
+        if isinstance(e, ast.GeneratorExp) or isinstance(e, ast.ListComp):
+            gens = e.generators
+            if len(gens) == 2 and not gens[0].ifs and not gens[1].ifs and ast.unparse(gens[1].iter) == ast.unparse(gens[0].target) \
+                    and ast.unparse(e.elt) == ast.unparse(gens[1].target):
+                return '(List.flatten %s)' % self.expr(gens[0].iter, env)      # [x for p in l for x in p]
+        if isinstance(e, ast.IfExp) and isinstance(e.test, ast.Name):
+            return '(if %s ≠ [] then %s else %s)' % (self.expr(e.test, env), self.expr(e.body, env), self.expr(e.orelse, env))
+        if isinstance(e, ast.List):
+            return '[' + ', '.join(self.expr(x, env) for x in e.elts) + ']'
+        raise NotTranslatable('expression ' + src[:80])
+
+
+def gen_c01(repo):
+    tree = parse(repo, 'pysparkling/rdd.py')
+    rdd = find_class(tree, 'RDD')
+
+    def body_of(fn):
+        return [st for st in fn.body if not (isinstance(st, ast.Expr) and isinstance(st.value, ast.Constant))]
+
+    def single_return(name, params):
+        fn = [n for n in rdd.body if isinstance(n, ast.FunctionDef) and n.name == name][0]
+        if [a.arg for a in fn.args.args] != ['self'] + params:
+            raise NotTranslatable('%s parameters' % name)
+        b = body_of(fn)
+        if len(b) != 1 or not isinstance(b[0], ast.Return):
+            raise NotTranslatable('%s is no longer a single return' % name)
+        return b[0].value
+    # module helpers used as task function / result handler of collect
+    um, uc = find_def(tree, 'unit_map'), find_def(tree, 'unit_collect')
+    if [ast.unparse(x) for x in body_of(um)] != ['return list(elements)'] or [ast.unparse(x) for x in body_of(uc)] != ['return [x for p in l for x in p]']:
+        raise NotTranslatable('unit_map / unit_collect')
+    t = TrF({'unit_map': '(fun elements => elements)', 'unit_collect': '(fun l => List.flatten l)'})
+    out = ('open PysparklingVerif\n\n/-- `copy.deepcopy`: the same VALUE (that the copy shares nothing with the original is the subject of the heap model, '
+           'Model/ZeroCopy.lean) -/\ndef deepcopy {α : Type} (x : α) : α := x\n\n'
+           '/-- `functools.reduce(f, xs)` without an initial value (`none` = TypeError on an empty sequence) -/\n'
+           'def reduce1 {α : Type} (f : α → α → α) : List α → Option α\n  | [] => none\n  | x :: xs => some (xs.foldl f x)\n\n'
+           '-- `runJob(rdd, f, resultHandler=h)` of a fault-free job is `h(f(tc, p) for p in partitions)` (retries and the lock: C04)\n\n')
+    env = {}
+    out += ('def aggregate {α β : Type} (zeroValue : β) (seqOp : β → α → β) (combOp : β → β → β) (parts : List (List α)) : β :=\n  %s\n\n' %
+            t.expr(single_return('aggregate', ['zeroValue', 'seqOp', 'combOp']), {'zeroValue': 'zeroValue', 'seqOp': 'seqOp', 'combOp': 'combOp'}))
+    out += ('def fold {α : Type} (zeroValue : α) (op : α → α → α) (parts : List (List α)) : α :=\n  %s\n\n' %
+            t.expr(single_return('fold', ['zeroValue', 'op']), {'zeroValue': 'zeroValue', 'op': 'op'}))
+    out += 'def count {α : Type} (parts : List (List α)) : Nat :=\n  %s\n\n' % t.expr(single_return('count', []), env)
+    out += 'def sum (parts : List (List Int)) : Int :=\n  %s\n\n' % t.expr(single_return('sum', []), env)
+    out += 'def collect {α : Type} (parts : List (List α)) : List α :=\n  %s\n\n' % t.expr(single_return('collect', []), env)
+    out += 'def toLocalIterator {α : Type} (parts : List (List α)) : List α :=\n  %s\n\n' % t.expr(single_return('toLocalIterator', []), env)
+    out += 'def first {α : Type} (parts : List (List α)) : Option α :=\n  %s\n\n' % t.expr(single_return('first', []), env)
+    out += 'def take {α : Type} (n : Nat) (parts : List (List α)) : List α :=\n  %s\n\n' % t.expr(single_return('take', ['n']), {'n': 'n'})
+    # reduce: a local reducer, the job, the emptiness test
+    fn = [n for n in rdd.body if isinstance(n, ast.FunctionDef) and n.name == 'reduce'][0]
+    b = body_of(fn)
+    if not (len(b) == 4 and isinstance(b[0], ast.FunctionDef) and b[0].name == 'reducer'
+            and [ast.unparse(x) for x in body_of(b[0])] == ['values = list(values)', 'return [functools.reduce(f, values)] if values else []']
+            and isinstance(b[1], ast.Assign) and ast.unparse(b[1].targets[0]) == 'result'
+            and ast.unparse(b[2]) == "if not result:\n    raise ValueError('Can not reduce() empty RDD')" and ast.unparse(b[3]) == 'return result[0]'):
+        raise NotTranslatable('reduce shape: %r' % [ast.unparse(x)[:60] for x in b])
+    out += ('/-- the local `reducer(values)`: the partial result as a list (empty for an empty input) -/\n'
+            'def reducer {α : Type} (f : α → α → α) (values : List α) : List α :=\n  match reduce1 f values with\n  | some r => [r]\n  | none => []\n\n')
+    job = t.expr(b[1].value, {'reducer': '(reducer f)', 'f': 'f'})
+    out += ('/-- `reduce(f)`; `none` = ValueError("Can not reduce() empty RDD") -/\n'
+            'def reduce {α : Type} (f : α → α → α) (parts : List (List α)) : Option α :=\n  (%s).head?\n' % job)
+    return 'pysparkling/rdd.py (RDD.aggregate, fold, count, sum, collect, toLocalIterator, first, take, reduce; unit_map, unit_collect)', out
+
+
+# ---- C19: the JSON description of data types (jsonValue / typeName / fromJson keys) ------------------------
+
+ATOM_CLASSES = [('null', 'NullType'), ('string', 'StringType'), ('binary', 'BinaryType'), ('boolean', 'BooleanType'), ('date', 'DateType'),
+                ('timestamp', 'TimestampType'), ('double', 'DoubleType'), ('float', 'FloatType'), ('byte', 'ByteType'),
+                ('integer', 'IntegerType'), ('long', 'LongType'), ('short', 'ShortType')]
+
+
+def gen_c19(repo):
+    tree = parse(repo, 'pysparkling/sql/types.py')
+
+    def own(cls, name):
+        c = find_class(tree, cls)
+        fns = [n for n in c.body if isinstance(n, ast.FunctionDef) and n.name == name]
+        return fns[0] if fns else None
+
+    def single_return(fn, what):
+        b = [st for st in fn.body if not (isinstance(st, ast.Expr) and isinstance(st.value, ast.Constant))]
+        if len(b) != 1 or not isinstance(b[0], ast.Return):
+            raise NotTranslatable('%s is no longer a single return' % what)
+        return b[0].value
+    base_tn = own('DataType', 'typeName')
+    if ast.unparse(single_return(base_tn, 'DataType.typeName')) != 'cls.__name__[:-4].lower()':
+        raise NotTranslatable('DataType.typeName is no longer cls.__name__[:-4].lower()')
+    if ast.unparse(single_return(own('DataType', 'jsonValue'), 'DataType.jsonValue')) != 'self.typeName()':
+        raise NotTranslatable('DataType.jsonValue is no longer self.typeName()')
+    rows = []
+    for atom, cls in ATOM_CLASSES:
+        find_class(tree, cls)
+        # an atomic class must not override typeName / jsonValue anywhere on its way up to DataType
+        c = cls
+        while c != 'DataType':
+            node = find_class(tree, c)
+            if own(c, 'typeName') or own(c, 'jsonValue'):
+                raise NotTranslatable('%s overrides typeName / jsonValue' % c)
+            bases = [b.id for b in node.bases if isinstance(b, ast.Name)]
+            if len(bases) != 1:
+                raise NotTranslatable('bases of %s' % c)
+            c = bases[0]
+        rows.append('  | .%s => "%s"' % (atom, cls[:-4].lower()))      # cls.__name__[:-4].lower()
+    out = ('open PysparklingVerif PysparklingVerif.Types\n\n/-- `typeName()` of the atomic classes: `cls.__name__[:-4].lower()` on the class names of the source -/\n'
+           'def atomName : Atom → String\n%s\n\n' % '\n'.join(rows))
+
+    def complex_name(cls):
+        for c in (cls,):
+            if own(c, 'typeName'):
+                raise NotTranslatable('%s overrides typeName' % c)
+        return cls[:-4].lower()
+
+    def value(e, attrs):
+        src = ast.unparse(e)
+        if src == 'self.typeName()':
+            return None      # filled by the caller
+        m = re.match(r'self\.(\w+)\.jsonValue\(\)$', src)
+        if m and m.group(1) in attrs and attrs[m.group(1)][1] == 'type':
+            return 'toJ %s' % attrs[m.group(1)][0]
+        m = re.match(r'self\.(\w+)$', src)
+        if m and m.group(1) in attrs:
+            lean, kind = attrs[m.group(1)]
+            return {'bool': '.bool %s', 'str': '.str %s', 'json': '%s'}[kind] % lean
+        if src == '[f.jsonValue() for f in self]':
+            return '.arr (toJFields fields)'
+        raise NotTranslatable('jsonValue entry ' + src)
+
+    def obj(cls, attrs, tname):
+        e = single_return(own(cls, 'jsonValue'), cls + '.jsonValue')
+        if not isinstance(e, ast.Dict) or not all(isinstance(k, ast.Constant) and isinstance(k.value, str) for k in e.keys):
+            raise NotTranslatable(cls + '.jsonValue is not a dict literal')
+        parts = []
+        for k, v in zip(e.keys, e.values):
+            lean = value(v, attrs)
+            if lean is None:
+                lean = '.str "%s"' % tname
+            parts.append('("%s", %s)' % (k.value, lean))
+        return '.obj [' + ', '.join(parts) + ']', [k.value for k in e.keys]
+    dec = single_return(own('DecimalType', 'jsonValue'), 'DecimalType.jsonValue')
+    if ast.unparse(dec) != "f'decimal({self.precision:d},{self.scale:d})'":
+        raise NotTranslatable('DecimalType.jsonValue')
+    arr, arr_keys = obj('ArrayType', {'elementType': ('elementType', 'type'), 'containsNull': ('containsNull', 'bool')}, complex_name('ArrayType'))
+    mp, map_keys = obj('MapType', {'keyType': ('keyType', 'type'), 'valueType': ('valueType', 'type'),
+                                   'valueContainsNull': ('valueContainsNull', 'bool')}, complex_name('MapType'))
+    st, st_keys = obj('StructType', {}, complex_name('StructType'))
+    fld, fld_keys = obj('StructField', {'name': ('name', 'str'), 'dataType': ('dataType', 'type'), 'nullable': ('nullable', 'bool'),
+                                        'metadata': ('metadata', 'json')}, None)
+    out += ('mutual\n/-- `jsonValue()` -/\ndef toJ : DType → J\n  | .atom a => .str (atomName a)\n'
+            '  | .decimal precision scale => .str ("decimal(" ++ String.ofList (Cast.renderNat precision) ++ "," ++ String.ofList (Cast.renderInt scale) ++ ")")\n'
+            '  | .array elementType containsNull => %s\n  | .map keyType valueType valueContainsNull => %s\n  | .struct fields => %s\n'
+            '/-- `[f.jsonValue() for f in self]` (`StructField.jsonValue`) -/\ndef toJFields : List (String × DType × Bool × J) → List J\n  | [] => []\n'
+            '  | (name, dataType, nullable, metadata) :: rest => %s :: toJFields rest\nend\n\n' % (arr, mp, st, fld))
+
+    # the keys `fromJson` reads, per class, in the order of the constructor arguments
+    def read_keys(cls):
+        fn = own(cls, 'fromJson')
+        if fn is None:
+            raise NotTranslatable(cls + '.fromJson')
+        return re.findall(r'json\[\'(\w+)\'\]', ast.unparse(fn))
+    out += '/-- keys written by `jsonValue` (besides "type") and keys read by `fromJson`, per class -/\n'
+    for cls, written in (('ArrayType', arr_keys), ('MapType', map_keys), ('StructType', st_keys), ('StructField', fld_keys)):
+        w = [k for k in written if not (k == 'type' and cls != 'StructField')]
+        out += 'def written%s : List String := [%s]\n' % (cls, ', '.join('"%s"' % k for k in w))
+        out += 'def read%s : List String := [%s]\n' % (cls, ', '.join('"%s"' % k for k in read_keys(cls)))
+    # the dispatch of the parser on "type"
+    pj = find_def(tree, '_parse_datatype_json_value')
+    src = ast.unparse(pj)
+    for needle in ("tpe = json_value['type']", 'if tpe in _all_complex_types:', '_all_complex_types[tpe].fromJson(json_value)'):
+        if needle not in src:
+            raise NotTranslatable('_parse_datatype_json_value: ' + needle)
+    act = [st_ for st_ in tree.body if isinstance(st_, ast.Assign) and ast.unparse(st_.targets[0]) == '_all_complex_types']
+    if len(act) != 1 or ast.unparse(act[0].value) != 'dict(((v.typeName(), v) for v in [ArrayType, MapType, StructType]))':
+        raise NotTranslatable('_all_complex_types')
+    out += '\n/-- `_all_complex_types`: the "type" strings the parser dispatches on -/\ndef complexTypeNames : List String := ["%s", "%s", "%s"]\n' % (
+        complex_name('ArrayType'), complex_name('MapType'), complex_name('StructType'))
+    return ('pysparkling/sql/types.py (DataType.typeName / jsonValue, DecimalType / ArrayType / MapType / StructType / StructField jsonValue, '
+            'fromJson keys, _all_complex_types)'), out
+
+
 # ---- C05: CacheManager, TimedCacheManager, PersistedRDD.compute ------------------------------------
 
 ENTRY_FIELDS = ('mem_obj', 'disk_location')
@@ -1161,4 +1413,4 @@ def gen_c05(repo):
     return 'pysparkling/cache_manager.py (CacheManager.add/get/has/delete, TimedCacheManager.add/gc), pysparkling/rdd.py (PersistedRDD.compute)', out
 
 
-GENERATORS_M = {'C11': gen_c11, 'C04': gen_c04, 'C05': gen_c05, 'C10': gen_c10, 'C09': gen_c09, 'C20': gen_c20, 'C03': gen_c03, 'C08': gen_c08, 'C12': gen_c12}
+GENERATORS_M = {'C11': gen_c11, 'C04': gen_c04, 'C05': gen_c05, 'C10': gen_c10, 'C09': gen_c09, 'C20': gen_c20, 'C03': gen_c03, 'C08': gen_c08, 'C12': gen_c12, 'C01': gen_c01, 'C19': gen_c19}
